@@ -72,6 +72,9 @@ def map1(ex, v, fn, kind=None):
         return r
     if isinstance(v, (list, tuple)):
         return map1(ex, to_small(ex, v), fn, kind)
+    if type(v).__name__ == "Masked":
+        r = map1(ex, v.full, fn, kind)
+        return type(v)(r, v.mask, v.axis)
     return fn(v)
 
 
